@@ -136,7 +136,7 @@ def run_tlc(module, cfg, prop, env=None, workers=None, timeout=1800, simulate=No
         _META_N += 1
         mn = _META_N
     meta = os.path.join(workdir(prop), "tlc_" + re.sub(r"\W", "_", os.path.basename(cfg)) + f"_{os.getpid()}_{mn}")
-    cmd = ["timeout", str(timeout), "java"]
+    cmd = ["timeout", str(timeout), "java", "-Xss1g"]
     if heap:
         cmd += [f"-Xmx{heap}"]
     cmd += ["-XX:+UseParallelGC", "-cp", (JCLS + ":" if overrides else "") + TLA_CP, "tlc2.TLC"]
